@@ -102,12 +102,12 @@ var kinds = map[string]kindInfo{
 	"trune": {"Alias_rune", true, false}, "tbool": {"Bool", false, false},
 	"tfloat32": {"Float32", true, false}, "tfloat64": {"Float64", true, false},
 	"tstring": {"", true, false}, "named_int": {"", true, false}, "duration": {"", true, false},
-	"reflect_kind": {"", true, false}, "other_enum": {"", true, true}, "other_enum2": {"", true, true},
+	"reflect_kind": {"", true, false}, "dot_duration": {"", true, false}, "other_enum": {"", true, true}, "other_enum2": {"", true, true},
 }
 
 var kindOrder = []string{"ustring", "uint", "urune", "ubool", "ufloat", "ucomplex", "tstringb", "tint64",
 	"tuint8", "tbyte", "trune", "tbool", "tfloat32", "tfloat64", "tstring", "named_int", "duration",
-	"reflect_kind", "other_enum", "other_enum2"}
+	"reflect_kind", "dot_duration", "other_enum", "other_enum2"}
 
 var reflectKinds = []string{"reflect.String", "reflect.Uint64", "reflect.Bool", "reflect.Int",
 	"reflect.Float32", "reflect.Slice", "reflect.Map", "reflect.Ptr"}
@@ -155,6 +155,8 @@ func cellOf(kind string, r int) string {
 		return fmt.Sprintf("Level(%d)", r+1)
 	case "duration":
 		return fmt.Sprintf("%d * xtime.Minute", r+1)
+	case "dot_duration":
+		return fmt.Sprintf("%d * Second", r+1)
 	case "reflect_kind":
 		return reflectKinds[r%len(reflectKinds)]
 	case "other_enum":
@@ -394,6 +396,9 @@ func renderEnum(pkg string, e *EnumSpec, o *GenumOpts) map[string]string {
 	}
 	if hasKind(e, "reflect_kind") {
 		imps = append(imps, "\t\"reflect\"")
+	}
+	if hasKind(e, "dot_duration") {
+		imps = append(imps, "\t. \"time\"")
 	}
 	if len(imps) > 0 {
 		sb.WriteString("import (\n" + strings.Join(imps, "\n") + "\n)\n\n")
